@@ -85,9 +85,10 @@ type Loc struct {
 // ---- translator-level heap plumbing ----
 
 type HeapEnv struct {
-	d      *Decls
-	comps  map[string]*Comp
-	nEpoch int
+	d          *Decls
+	comps      map[string]*Comp
+	nEpoch     int
+	epochAlloc map[int]string // allocation counter when the epoch's implicit heap constants came into being
 }
 
 func (h *HeapEnv) comp(name string, kind CompKind, vt types.Type) *Comp {
@@ -144,7 +145,29 @@ func (h *HeapEnv) havocAll(s *State) *State {
 	n.hv = h.d.fresh("hv", "Int")
 	a := h.d.fresh("alloc", "Int")
 	n.alloc = a
+	h.noteEpochAlloc(n.epoch, a)
 	return n
+}
+
+// noteEpochAlloc records the allocation counter at the creation of a heap epoch: every pointer stored in a component
+// that has not been written since (its term is still the epoch's implicit constant) is older than that.
+func (h *HeapEnv) noteEpochAlloc(epoch int, alloc string) {
+	if h.epochAlloc == nil {
+		h.epochAlloc = map[int]string{}
+	}
+	h.epochAlloc[epoch] = alloc
+}
+
+// loadBound: an upper bound (exclusive) for object identities read from component c in state s.
+func (h *HeapEnv) loadBound(s *State, c *Comp) string {
+	if c != nil {
+		if _, explicit := s.heaps[c.Name]; !explicit {
+			if a, ok := h.epochAlloc[s.epoch]; ok {
+				return a
+			}
+		}
+	}
+	return s.alloc
 }
 
 func (h *HeapEnv) projectPath(base string, path []PathEl) string {
@@ -348,6 +371,9 @@ func (h *HeapEnv) mergeStates(states []*State, conds []string, assume func(strin
 		return m
 	}
 	n.alloc = mergeScalar(func(s *State) string { return s.alloc }, "Int", "allocm")
+	if !sameEpoch {
+		h.noteEpochAlloc(n.epoch, n.alloc)
+	}
 	n.hv = mergeScalar(func(s *State) string { return s.hv }, "Int", "hvm")
 	// locals
 	lkeys := map[ssa.Value]bool{}
